@@ -4,6 +4,7 @@ import (
 	"fmt"
 	"regexp/syntax"
 	"unicode"
+	"unicode/utf8"
 
 	"github.com/coregx/coregex/internal/conv"
 )
@@ -809,35 +810,31 @@ func (c *Compiler) compileUTF84ByteRange(lo, hi rune, endState StateID) []StateI
 	}
 
 	// UTF-8 4-byte encoding: 11110xxx 10xxxxxx 10xxxxxx 10xxxxxx
-	// For simplicity, use a conservative approach: match any valid 4-byte sequence in range
-	// This creates more states but is correct
-
-	loLead := byte(0xF0 | (lo >> 18))
-	hiLead := byte(0xF0 | (hi >> 18))
-
-	for leadVal := loLead; leadVal <= hiLead; leadVal++ {
-		// Determine cont1 range for this lead byte
-		var c1Lo, c1Hi byte
-		if leadVal == 0xF0 {
-			c1Lo = 0x90 // F0 requires cont1 >= 0x90
-		} else {
-			c1Lo = 0x80
+	// Split [lo, hi] into sub-ranges whose encodings differ only in a suffix
+	// of bytes that each run over a full interval, then emit one byte-range
+	// chain per sub-range.
+	for i := uint(1); i <= 3; i++ {
+		m := rune(1)<<(6*i) - 1
+		if lo&^m != hi&^m {
+			if lo&m != 0 {
+				starts = append(starts, c.compileUTF84ByteRange(lo, lo|m, endState)...)
+				return append(starts, c.compileUTF84ByteRange((lo|m)+1, hi, endState)...)
+			}
+			if hi&m != m {
+				starts = append(starts, c.compileUTF84ByteRange(lo, (hi&^m)-1, endState)...)
+				return append(starts, c.compileUTF84ByteRange(hi&^m, hi, endState)...)
+			}
 		}
-		if leadVal == 0xF4 {
-			c1Hi = 0x8F // F4 requires cont1 <= 0x8F
-		} else {
-			c1Hi = 0xBF
-		}
-
-		// Build states for each lead byte value
-		cont3 := c.builder.AddByteRange(0x80, 0xBF, endState)
-		cont2 := c.builder.AddByteRange(0x80, 0xBF, cont3)
-		cont1 := c.builder.AddByteRange(c1Lo, c1Hi, cont2)
-		lead := c.builder.AddByteRange(leadVal, leadVal, cont1)
-		starts = append(starts, lead)
 	}
 
-	return starts
+	var loBuf, hiBuf [utf8.UTFMax]byte
+	utf8.EncodeRune(loBuf[:], lo)
+	utf8.EncodeRune(hiBuf[:], hi)
+	next := endState
+	for k := 3; k >= 0; k-- {
+		next = c.builder.AddByteRange(loBuf[k], hiBuf[k], next)
+	}
+	return append(starts, next)
 }
 
 // buildUTF8NonASCIIBranches builds NFA branches for all valid UTF-8 multi-byte sequences.
